@@ -204,3 +204,7 @@ func withAnon(fn *ssa.Function) []*ssa.Function {
 	}
 	return out
 }
+
+func isErrorType(t types.Type) bool {
+	return types.Identical(t, types.Universe.Lookup("error").Type())
+}
